@@ -21,6 +21,11 @@ INITIAL_GRIDS = [
     (1, [F(0), F(1), F(2), F(3)], [F(0), F(1, 3), F(2, 3), F(1)]),
     (1, [F(0), F(1), F(2)], [F(0), F(2)]),
     (0, [F(0), F(1), F(2), F(3)], [F(0), F(1), F(2), F(3)]),
+    # grids that do not start at 0 / have 0 as an interior grid line (time grids of a restart, shifted open curves)
+    (1, [F(0), F(1), F(2)], [F(1), F(2)]),
+    (1, [F(0), F(1), F(2), F(3)], [F(-1), F(0), F(1)]),
+    (0, [F(1), F(2), F(4)], [F(1), F(3, 2), F(2)]),
+    (0, [F(-1), F(0), F(1)], [F(0), F(1)]),
 ]
 
 THETAS = [F(1, 16), F(1, 4), F(1, 2), F(3, 4), F(7, 8), F(15, 16)]
